@@ -71,12 +71,16 @@ T = {
 }
 
 
+# Properties whose check is finished (built, swept, committed).
+READY = ['C01', 'C02', 'C03']
+
+
 def main():
   props = [json.loads(l) for l in open(os.path.join(ROOT, 'properties.jsonl'))]
   checks, na = [], []
   for p in props:
     pid = p['id']
-    if os.path.exists(os.path.join(ROOT, 'pgverif', 'props', pid.lower() + '.py')):
+    if pid in READY and os.path.exists(os.path.join(ROOT, 'pgverif', 'props', pid.lower() + '.py')):
       tech, text, note, ref = T[pid]
       mod_level = 'exploration'
       src = open(os.path.join(ROOT, 'pgverif', 'props', pid.lower() + '.py')).read()
